@@ -106,9 +106,6 @@ impl Counter {
         self.counter.fetch_sub(1, Ordering::Relaxed) - 1 == self.limit
     }
 
-    pub(crate) fn total(&self) -> usize {
-        self.counter.load(Ordering::SeqCst) - 1
-    }
 }
 
 pub(crate) struct WorkerCounter {
@@ -138,8 +135,13 @@ impl WorkerCounter {
         WorkerCounterGuard(self.clone())
     }
 
+    /// Number of connections in progress on this worker.
+    ///
+    /// Counted locally as the number of live guards (every [`WorkerCounterGuard`] holds a clone of
+    /// this counter). The shared atomic is not used for this: `Accept` increments it only after the
+    /// connection has been sent, so it can under-count a connection that is already in progress.
     fn total(&self) -> usize {
-        self.inner.1.total()
+        Rc::strong_count(&self.inner) - 1
     }
 }
 
